@@ -92,13 +92,13 @@ def fromHm (h m : Nat) : Option DicomTime :=
 def fromHms (h m s : Nat) : Option DicomTime :=
   if checkComponent .hour h && checkComponent .minute m && checkComponent .second s
   then some (.second h m s) else none
-/-- `from_hms_milli` — *repaired* behaviour: hour, minute and second are range-checked like in
-every other constructor (the unrepaired code checks only the millisecond). -/
+/-- `from_hms_milli`: hour, minute and second are range-checked like in every other constructor
+(since /repo commit 8fcd311; before it only the millisecond was checked). -/
 def fromHmsMilli (h m s ms : Nat) : Option DicomTime :=
   if checkComponent .millisecond ms && checkComponent .hour h && checkComponent .minute m
       && checkComponent .second s
   then some (.fraction h m s ms 3) else none
-/-- `from_hms_micro` — repaired behaviour, as above. -/
+/-- `from_hms_micro`, as above. -/
 def fromHmsMicro (h m s us : Nat) : Option DicomTime :=
   if checkComponent .fraction us && checkComponent .hour h && checkComponent .minute m
       && checkComponent .second s
